@@ -77,6 +77,36 @@ def rule_a(ctx: Context, R: Reporter):
     R.floor("C11.a", "logz writes in the prior-draw branch", n, 1)
 
 
+def _canon_guard(test: ast.expr, pol: bool) -> str:
+    """Canonical description of the condition under which the replacement is
+    skipped: every spelling of "the collection X is empty" maps to empty(X)."""
+    t = test
+    if isinstance(t, ast.UnaryOp) and isinstance(t.op, ast.Not):
+        return _canon_guard(t.operand, not pol)
+    size_of = None
+    if isinstance(t, ast.Compare) and len(t.ops) == 1:
+        l, r, op = t.left, t.comparators[0], type(t.ops[0]).__name__
+        if isinstance(l, ast.Constant) and not isinstance(r, ast.Constant):
+            l, r = r, l
+            op = {"Lt": "Gt", "Gt": "Lt", "LtE": "GtE", "GtE": "LtE"}.get(op, op)
+        if isinstance(l, ast.Call) and dotted(l.func) == "len" and l.args:
+            size_of = l.args[0]
+        elif isinstance(l, ast.Attribute) and l.attr == "size":
+            size_of = l.value
+        c = r.value if isinstance(r, ast.Constant) else None
+        if size_of is not None and c in (0, 1):
+            nonempty_when_true = (op, c) in (("Gt", 0), ("NotEq", 0), ("GtE", 1))
+            empty_when_true = (op, c) in (("Eq", 0), ("LtE", 0), ("Lt", 1))
+            if nonempty_when_true or empty_when_true:
+                is_empty = (empty_when_true and pol) or (nonempty_when_true and not pol)
+                return f"{'empty' if is_empty else 'nonempty'}({norm_text(size_of)})"
+    if isinstance(t, ast.Call) and dotted(t.func) == "len" and t.args:
+        return f"{'nonempty' if pol else 'empty'}({norm_text(t.args[0])})"
+    if isinstance(t, ast.Attribute) and t.attr == "size":
+        return f"{'nonempty' if pol else 'empty'}({norm_text(t.value)})"
+    return f"{norm_text(test)} is {pol}"
+
+
 def rule_b(ctx: Context, R: Reporter):
     funcs = prior_draw_functions(ctx)
     n = 0
@@ -114,7 +144,7 @@ def rule_b(ctx: Context, R: Reporter):
                     for i, j in zip(p, p[1:]):
                         for (tt, lab) in cfg.succ[i]:
                             if tt == j and lab and lab[0] == "cond" and cfg.nodes[i].id != t.id and any(cfg.reaches(x, sn) or x == sn for sn in site_nodes for (x, l2) in cfg.succ[i] if l2 and l2[0] == "cond" and l2[2] != lab[2]):
-                                skip_guard = f"{norm_text(lab[1])} is {lab[2]}"
+                                skip_guard = _canon_guard(lab[1], lab[2])
             R.check(
                 "C11.b", "every path with a non-empty -inf mask passes the joint replacement", ok, fi, t.ast,
                 msg=f"{fi.short}: after `{unparse(t.ast)}` is true there is a path to the end of the function that never replaces the -inf rows "
@@ -212,6 +242,15 @@ def _count_eval(ctx: Context, fi: FuncInfo, flow, e: ast.expr, at, depth: int = 
                     raise _CountUndecided("mask applied to a subset")
                 return (1, 0) if k == "F" else (0, 1)
             raise _CountUndecided(f"selection `{unparse(x)[:40]}`")
+        if isinstance(x, ast.ListComp) and len(x.generators) == 1 and not x.generators[0].ifs:
+            it = x.generators[0].iter
+            if isinstance(it, ast.Call) and dotted(it.func) == "range" and len(it.args) == 1:
+                return _count_eval(ctx, fi, flow, it.args[0], at2, depth + 1)
+            if isinstance(it, ast.Call) and dotted(it.func) in ("enumerate", "zip", "list", "iter") and it.args:
+                return rows_of(it.args[0], at2, d2 + 1)
+            return rows_of(it, at2, d2 + 1)
+        if isinstance(x, ast.Call) and (ctx.res.external_name(fi, x) or "") in ("numpy.array", "numpy.asarray", "numpy.stack", "numpy.vstack") and x.args and isinstance(x.args[0], ast.ListComp):
+            return rows_of(x.args[0], at2, d2 + 1)
         if isinstance(x, ast.Call):
             nm = ctx.res.external_name(fi, x) or ""
             if nm == "numpy.arange" and len(x.args) == 1:
@@ -222,8 +261,14 @@ def _count_eval(ctx: Context, fi: FuncInfo, flow, e: ast.expr, at, depth: int = 
                     return (1, 0) if k == "F" else (0, 1)
             if nm in ("numpy.asarray", "numpy.array", "numpy.copy") and x.args:
                 return rows_of(x.args[0], at2, d2 + 1)
-            if nm == "numpy.random.rand" and x.args:
-                return _count_eval(ctx, fi, flow, x.args[0], at2, depth + 1)
+            if nm in ("numpy.random.rand", "numpy.random.random", "numpy.random.random_sample", "numpy.random.uniform", "numpy.zeros", "numpy.ones", "numpy.empty") and (x.args or x.keywords):
+                shp = x.args[0] if (x.args and nm == "numpy.random.rand") else (call_arg(x, 0, "size") if nm.startswith("numpy.random.") else call_arg(x, 0, "shape"))
+                if nm == "numpy.random.uniform":
+                    shp = call_arg(x, 2, "size")
+                if isinstance(shp, (ast.Tuple, ast.List)) and shp.elts:
+                    shp = shp.elts[0]
+                if shp is not None:
+                    return _count_eval(ctx, fi, flow, shp, at2, depth + 1)
             # the likelihood wrapper / prior transform evaluated on the batch: one row per point
             raise _CountUndecided(f"rows of `{unparse(x)[:40]}`")
         if isinstance(x, ast.Name):
